@@ -40,9 +40,10 @@ class RTuple:
     def __init__(self, l): self.l = l
     def __repr__(self): return 'RTuple%r' % (self.l,)
 class RMap:
-    """HashMap contract model: association list; iteration order is a nondeterministic choice (Machine.hash_order)"""
-    __slots__ = ('l',)
-    def __init__(self): self.l = []
+    """HashMap contract model: association list; iteration order is a nondeterministic choice (Machine.hash_order), fixed for as long as the
+    map is not modified (a real HashMap iterates a given table in the same order every time)"""
+    __slots__ = ('l', 'perm')
+    def __init__(self): self.l = []; self.perm = None
 class RSet:
     __slots__ = ('l',)
     def __init__(self): self.l = []
@@ -77,7 +78,7 @@ def deep(v):
     if isinstance(v, RVec): return RVec([deep(x) for x in v.l])
     if isinstance(v, RTuple): return RTuple([deep(x) for x in v.l])
     if isinstance(v, RMap):
-        m = RMap(); m.l = [[deep(k), deep(x)] for k, x in v.l]; return m
+        m = RMap(); m.l = [[deep(k), deep(x)] for k, x in v.l]; m.perm = None; return m          # a clone is a new table (its own order)
     if isinstance(v, RSet):
         s = RSet(); s.l = [deep(x) for x in v.l]; return s
     return v
@@ -577,6 +578,7 @@ class Machine:
             if n in self.fns: return RFn(self.fns[n])
             if n in self.nested: return RFn(self.nested[n])      # a nested fn item calling itself
             if n == 'None': return NONE()
+            if n == 'drop': return lambda *a: UNIT
             if n in ('Some', 'Ok', 'Err'): return RCtor('Option' if n == 'Some' else 'Result', n)
             if n in self.statics: return self.static(n)
             raise Unsupported('name %s at %s' % (n, e['sp']))
@@ -953,7 +955,9 @@ BUILTIN_FNS = {
     ('mem', 'discriminant'): lambda m, v: RDisc(v.enum, v.variant), ('VecDeque', 'new'): lambda m: RVec(),
     ('process', 'exit'): _exit, ('fs', 'read_to_string'): _read_to_string, ('File', 'create'): _file_create,
     ('Reader', 'from_str'): _reader_from_str, ('Reader', 'from_file'): _reader_from_file, ('Args', 'parse'): _args_parse,
-    ('env_logger', 'init'): lambda m: UNIT,
+    ('env_logger', 'init'): lambda m: UNIT, ('mem', 'drop'): lambda m, v: UNIT, ('mem', 'take'): lambda m, v: (_ for _ in ()).throw(Unsupported('mem::take')),
+    ('OnceCell', 'new'): lambda m: RStruct('OnceCell', {'v': NONE()}), ('OnceLock', 'new'): lambda m: RStruct('OnceCell', {'v': NONE()}),
+    ('RefCell', 'new'): lambda m, v: RStruct('RefCell', {'v': v}), ('Cell', 'new'): lambda m, v: RStruct('RefCell', {'v': v}),
 }
 def _position(m, it, f):
     for i, x in enumerate(it.l[it.i:]):
@@ -990,8 +994,8 @@ def _perm_choice(m, n):
         m.partial_orders = True
     return list(perms[m.choose(len(perms))])
 def _map_iter(m, mp):
-    p = _perm_choice(m, len(mp.l))
-    return RIter([RTuple([mp.l[i][0], mp.l[i][1]]) for i in p])
+    if mp.perm is None or len(mp.perm) != len(mp.l): mp.perm = _perm_choice(m, len(mp.l))
+    return RIter([RTuple([mp.l[i][0], mp.l[i][1]]) for i in mp.perm])
 def _set_iter(m, st):
     p = _perm_choice(m, len(st.l))
     return RIter([st.l[i] for i in p])
@@ -1003,11 +1007,11 @@ def _map_insert(m, mp, k, v):
     for ent in mp.l:
         if m.branch(m.eq(ent[0], k)):
             old = ent[1]; ent[1] = v; return Some(old)
-    mp.l.append([k, v]); return NONE()
+    mp.l.append([k, v]); mp.perm = None; return NONE()
 def _map_remove(m, mp, k):
     for i, ent in enumerate(mp.l):
         if m.branch(m.eq(ent[0], k)):
-            mp.l.pop(i); return Some(ent[1])
+            mp.l.pop(i); mp.perm = None; return Some(ent[1])
     return NONE()
 def _set_insert(m, st, x):
     for y in st.l:
@@ -1144,6 +1148,9 @@ def _str_pop(m, s_):
     v = m.cs(s_)
     if not v: return NONE()
     s_.val = v[:-1]; return Some(v[-1])
+def _once_get_or_init(m, c, f):
+    if c.f['v'].variant == 'None': c.f['v'] = Some(m.call_value(f, []))
+    return c.f['v'].p[0]
 def _dedup(m, v):
     out = []
     for x in v.l:
@@ -1217,7 +1224,7 @@ def _or_insert_with(m, en, f):
     for ent in en.mp.l:
         if m.branch(m.eq(ent[0], en.k)): return ent[1]
     v = m.call_value(f, []) if not isinstance(f, (RStr, RVec, RMap, RSet, int, bool, RStruct, REnum, RTuple)) else f
-    en.mp.l.append([en.k, v]); return v
+    en.mp.l.append([en.k, v]); en.mp.perm = None; return v
 def _or_default(m, en):
     raise Unsupported('entry().or_default() (value type unknown to the executor)')
 def _char_indices(m, s_):
@@ -1301,6 +1308,11 @@ BUILTIN_METHODS = {
     ('RStr', 'eq_ignore_ascii_case'): lambda m, s_, t: m.cs(s_).lower() == m.cs(t).lower() if (m.cs(s_).isascii() and m.cs(t).isascii()) else (_ for _ in ()).throw(Unsupported('eq_ignore_ascii_case on non-ASCII')),
     ('RStr', 'capacity'): lambda m, s_: 0, ('RStr', 'reserve'): lambda m, s_, n: UNIT, ('RStr', 'insert_str'): lambda m, s_, i, t: (setattr(s_, 'val', m.cs(s_).encode()[:i].decode() + m.cs(t) + m.cs(s_).encode()[i:].decode()), UNIT)[1],
     ('RStr', 'is_ascii'): lambda m, s_: m.cs(s_).isascii(),
+    ('OnceCell', 'get_or_init'): lambda m, c, f: _once_get_or_init(m, c, f), ('OnceCell', 'get'): lambda m, c: c.f['v'],
+    ('OnceCell', 'set'): lambda m, c, v: (Err(v) if c.f['v'].variant == 'Some' else (c.f.__setitem__('v', Some(v)), Ok(UNIT))[1]),
+    ('OnceCell', 'take'): lambda m, c: (c.f['v'], c.f.__setitem__('v', NONE()))[0],
+    ('RefCell', 'borrow'): lambda m, c: c.f['v'], ('RefCell', 'borrow_mut'): lambda m, c: c.f['v'], ('RefCell', 'get'): lambda m, c: c.f['v'],
+    ('RefCell', 'set'): lambda m, c, v: (c.f.__setitem__('v', v), UNIT)[1], ('RefCell', 'replace'): lambda m, c, v: (c.f['v'], c.f.__setitem__('v', v))[0],
     ('RStr', 'insert'): lambda m, s_, i, c: _str_insert(m, s_, i, c), ('RStr', 'remove'): lambda m, s_, i: _str_remove(m, s_, i), ('RStr', 'pop'): lambda m, s_: _str_pop(m, s_),
     ('RStr', 'truncate'): lambda m, s_, n: (setattr(s_, 'val', m.slice_str(s_, 0, n).val), UNIT)[1],
     ('RIter', 'rev'): lambda m, it: RIter(reversed(it.l[it.i:])), ('RIter', 'position'): _position, ('RIter', 'find'): _find,
